@@ -122,10 +122,17 @@ Proof. exact style_roundtrip. Qed.
 
 (* ================================================================= 5. idempotence and evolution *)
 (* createTable(ifNotExists=True) a second time / dropTable(ifExists=True) a second time:
-   nothing changes and nothing fails, from any database state, however the first call ended *)
-Theorem C14_idempotent_create : forall dc db,
+   nothing changes and nothing fails, from ANY database state (whatever other tables it holds;
+   the library's tableExists compares the name exactly), however the first call ended.
+   case_clash_free: no table whose name differs from the class's in letter case only -- for the
+   engine that is the same table and CREATE TABLE fails; then the second call still leaves the
+   state alone (C14_idempotent_create_state) *)
+Theorem C14_idempotent_create : forall dc db, case_clash_free db (table_of dc) = true ->
   create_table_op dc true (fst (create_table_op dc true db)) = (fst (create_table_op dc true db), false).
 Proof. exact create_idem. Qed.
+Theorem C14_idempotent_create_state : forall dc db,
+  fst (create_table_op dc true (fst (create_table_op dc true db))) = fst (create_table_op dc true db).
+Proof. exact create_idem_state. Qed.
 Theorem C14_idempotent_drop : forall dc db,
   drop_table_op dc true (fst (drop_table_op dc true db)) = (fst (drop_table_op dc true db), false).
 Proof. exact drop_idem. Qed.
@@ -233,6 +240,14 @@ Example C14_idempotent_example :
   /\ db_tables (fst (drop_table_op w_evo true (fst (create_table_op w_evo true empty_db)))) = [].
 Proof. repeat split; vm_compute; reflexivity. Qed.
 
+(* a foreign table whose name matches the wanted one with _ read as a wildcard does not count *)
+Definition ex_decoy_db := fst (eng_create empty_db (s2l "vc2evo") [s2l "zz"]).
+Example C14_idempotent_decoy_example :
+  case_clash_free ex_decoy_db (table_of w_evo) = true
+  /\ map t_name (db_tables (fst (create_table_op w_evo true ex_decoy_db))) = [s2l "vc2evo"; s2l "vc_evo"]
+  /\ map t_name (db_tables (fst (drop_table_op w_evo true (fst (create_table_op w_evo true ex_decoy_db))))) = [s2l "vc2evo"].
+Proof. repeat split; vm_compute; reflexivity. Qed.
+
 Print Assumptions C14_skeleton_sqlite.
 Print Assumptions C14_skeleton_postgres.
 Print Assumptions C14_skeleton_firebird.
@@ -258,6 +273,7 @@ Print Assumptions C14_join_one_sided.
 Print Assumptions C14_join_one_sided_count.
 Print Assumptions C14_style_roundtrip.
 Print Assumptions C14_idempotent_create.
+Print Assumptions C14_idempotent_create_state.
 Print Assumptions C14_idempotent_drop.
 Print Assumptions C14_evolution_inv.
 Print Assumptions C14_evolution_index_refuted.
